@@ -623,8 +623,10 @@ func (e *Exec) evalIndex(x EIndex, env *Env) Val {
 		case *types.Array:
 			return Val{T: Sel(v.T, i.T), S: e.sortOf(t.Elem()), Ty: t.Elem()}
 		case *types.Map:
-			_, vh, _, vs := e.mapHeaps(t)
-			return Val{T: Sel(Sel(e.get(env.st, vh, vs), v.T), i.T), S: e.sortOf(t.Elem()), Ty: t.Elem()}
+			// Go semantics: the zero value for an absent key (and for a nil map)
+			d, vh, ds, vs := e.mapHeaps(t)
+			has := And(Not(Eq(v.T, "0")), Sel(Sel(e.get(env.st, d, ds), v.T), i.T))
+			return Val{T: Ite(has, Sel(Sel(e.get(env.st, vh, vs), v.T), i.T), e.zeroOf(t.Elem())), S: e.sortOf(t.Elem()), Ty: t.Elem()}
 		case *types.Pointer:
 			if arr, ok := t.Elem().Underlying().(*types.Array); ok {
 				h, hs := e.elemHeap(arr.Elem())
@@ -729,6 +731,10 @@ func (e *Exec) evalCall(x ECall, env *Env) Val {
 			ref = ""+e.sbase(v.T)+""
 		}
 		return boolVal("(<= " + ref + " " + e.top(env.st) + ")")
+	case "staticerr":
+		// true exactly for the package-level error values made by errors.New (see globalFacts)
+		v := arg(0)
+		return boolVal("(and ((_ is any_i) " + v.T + ") (= (a_tag " + v.T + ") " + IntLit(int64(e.P.typeID(types.Typ[types.UnsafePointer]))) + "))")
 	case "typeof":
 		return intVal("(typeof " + arg(0).T + ")")
 	case "hastype":
@@ -911,6 +917,33 @@ func (e *Exec) evalLocs(x Expr, env *Env) []location {
 			out = append(out, location{kind: "heap", heap: h, hs: hs, ref: ref})
 		}
 		return out
+	}
+	// Go maps: an entry m[k] (or mapall(m)) is a location in both the domain and the value heap
+	if ix, ok := x.(EIndex); ok {
+		if id, isID := ix.X.(EIdent); !isID || e.P.Spec.Ghosts[id.Name] == nil {
+			v := e.evalSpec(ix.X, env)
+			if v.Ty != nil {
+				if mt, ok := v.Ty.Underlying().(*types.Map); ok {
+					k := e.evalSpec(ix.I, env)
+					d, vh, ds, vs := e.mapHeaps(mt)
+					e.get(env.st, d, ds)
+					e.get(env.st, vh, vs)
+					return []location{{kind: "heap", heap: d, hs: ds, ref: v.T, idx: k.T}, {kind: "heap", heap: vh, hs: vs, ref: v.T, idx: k.T}}
+				}
+			}
+		}
+	}
+	if c, ok := x.(ECall); ok && c.Fun == "mapall" {
+		v := e.evalSpec(c.Args[0], env)
+		if v.Ty != nil {
+			if mt, ok := v.Ty.Underlying().(*types.Map); ok {
+				d, vh, ds, vs := e.mapHeaps(mt)
+				e.get(env.st, d, ds)
+				e.get(env.st, vh, vs)
+				return []location{{kind: "heap", heap: d, hs: ds, ref: v.T}, {kind: "heap", heap: vh, hs: vs, ref: v.T}}
+			}
+		}
+		e.unsupported("mapall() of a non-map")
 	}
 	return []location{e.evalLoc(x, env)}
 }
